@@ -127,6 +127,29 @@ func c03Scenario(name string, signers []string, min uint64, fullGov bool) *Scena
 	return s
 }
 
+// c03SameBlock: decisions, whitelist changes and raises that meet in one block, in both orders.
+func c03SameBlock() *Scenario {
+	g := BaseGenesis(
+		mc.AcctSpec{Name: "S1", Coins: Coins(1000, 0)}, mc.AcctSpec{Name: "S2", Coins: Coins(1000, 0)}, mc.AcctSpec{Name: "S3", Coins: Coins(1000, 0)},
+		mc.AcctSpec{Name: "P1", Coins: Coins(1000, 0)}, mc.AcctSpec{Name: "P2", Coins: Coins(1000, 0)},
+	)
+	g.EntSigner, g.MinAccept, g.Limit, g.Whitelist = []string{"S1", "S2", "S3"}, 2, 100, []string{"P1"}
+	s := &Scenario{Name: "po-same-block", Genesis: g, KeyTimeNs: false, Visit: orderLifecycle}
+	core := []Action{decide("S1", 1, 2), decide("S2", 1, 2), decide("S2", 1, 3), decide("S3", 1, 3),
+		{Name: "whitelist(S2,-P1)", Dt: time.Millisecond, Txs: tx1(model.Msg{Kind: model.EntWhitelist, From: "S2", To: "P1", N: 2})}}
+	for i := range core {
+		core[i].Enabled = nil // a decision on an order raised earlier in the same block is a legal letter too
+	}
+	r1 := raise("P1", 7, 2)
+	s.Actions = append(s.Actions, r1, raise("P2", 11, 2),
+		Action{Name: "whitelist(S1,+P2)", Dt: time.Millisecond, Txs: tx1(model.Msg{Kind: model.EntWhitelist, From: "S1", To: "P2", N: 1})})
+	s.Actions = append(s.Actions, core...)
+	s.Actions = append(s.Actions, pairLetters(core...)...)
+	s.Actions = append(s.Actions, pairLetters(r1, core[0])[1], pairLetters(r1, core[4])[1], pairLetters(core[4], r1)[1]) // raise;accept  raise;whitelist-  whitelist-;raise
+	s.Actions = append(s.Actions, timeSteps(250, time.Second, 100*time.Second)...)
+	return s
+}
+
 var c03Owns = ownsAny("ent.order", "ent.locked", "ent.whitelist", "ent.transition", "ent.terminal_changed", "tx.accept_unexpected:ent.", "tx.reject_unexpected:ent.")
 
 func init() {
@@ -137,6 +160,10 @@ func init() {
 				{S: c03Scenario("po-3of3-min2", []string{"S1", "S2", "S3"}, 2, true), Opt: map[Tier]Options{
 					Quick:    {Depth: 5, Budget: 150 * time.Second, ReplayEvery: 16},
 					Thorough: {Depth: 6, Budget: 12 * time.Minute, ReplayEvery: 16, MaxStates: 500000},
+				}},
+				{S: c03SameBlock(), Opt: map[Tier]Options{
+					Quick:    {Depth: 3, Budget: 60 * time.Second, ReplayEvery: 16},
+					Thorough: {Depth: 5, Budget: 8 * time.Minute, ReplayEvery: 16, MaxStates: 300000},
 				}},
 				{S: c03Scenario("po-1of1", []string{"S1"}, 1, false), Opt: map[Tier]Options{
 					Quick:    {Depth: 4, Budget: 60 * time.Second, ReplayEvery: 8},
